@@ -84,6 +84,7 @@ func workerMain(args []string) int {
 	ctx := NewRunCtx()
 	res := &ShardResult{Property: prop, Shard: shard, Of: of}
 	n := e.Count(tier)
+	knownSeen := map[string]bool{}
 	maxViol := 8
 	switch prop {
 	case "C07", "C09", "C04":
@@ -122,7 +123,17 @@ func workerMain(args []string) int {
 				Seed: seed, Index: i, Scenario: mustJSON(sc), Log: append([]string{}, ctx.Log...), LogDigest: ctx.LogDigest()})
 			break
 		}
-		if len(res.Violations) >= maxViol {
+		if isKnownClass(prop, f.Class) {
+			// a recorded finding: one witness per worker is enough, and it is not minimised again
+			if !knownSeen[f.Class] {
+				knownSeen[f.Class] = true
+				res.Violations = append(res.Violations, &Violation{Property: prop, Engine: e.Name(), Class: f.Class, Detail: f.Detail,
+					Seed: seed, Index: i, Scenario: mustJSON(sc), Log: append([]string{}, ctx.Log...), LogDigest: ctx.LogDigest()})
+			}
+			ctx.Count("known_finding_occurrences", 1)
+			continue
+		}
+		if len(res.Violations) >= maxViol+len(knownSeen) {
 			ctx.Count("violations_beyond_cap", 1)
 			continue
 		}
@@ -202,6 +213,15 @@ func loadKnown() []KnownFinding {
 		os.Exit(2)
 	}
 	return doc.Findings
+}
+
+func isKnownClass(prop, class string) bool {
+	for _, k := range loadKnown() {
+		if k.Status == "known" && k.Property == prop && k.Class == class {
+			return true
+		}
+	}
+	return false
 }
 
 func tierTimeout(tier string) time.Duration {
